@@ -214,3 +214,41 @@ func init() {
 	m := libModel{uf: "bytes_Equal", ret: "Bool", retGo: "bool"}
 	libPure["bytes.Equal"] = m
 }
+
+// path.Join(a, b) with exactly two elements is named path_Join2(a, b) (same symbol as path.Join2 in contracts);
+// other arities yield an arbitrary string.
+func init() {
+	h := func(f *Frame, c *ssa.CallCommon, args []Val, pos token.Pos) ([]Val, bool) {
+		vc := f.vc
+		res := f.freshResults(c, "path_Join")
+		if len(args) == 1 && args[0].S == "Slice" && len(res) == 1 {
+			comp := vc.regMem(types.Typ[types.String])
+			m := vc.get(f.cur, comp)
+			a := args[0].T
+			e := func(i int) string {
+				return sel(sel(m, "(s-ref "+a+")"), fmt.Sprintf("(sidx (s-off %s) %d)", a, i))
+			}
+			vc.declareFun("path_Join2", []string{"Str", "Str"}, "Str")
+			vc.assume(implies(fmt.Sprintf("(= (s-len %s) 2)", a), eq(res[0].T, app("path_Join2", e(0), e(1)))))
+		}
+		return res, true
+	}
+	libExt["path.Join"] = h
+	libExt["path/filepath.Join"] = h
+	libExtWrites["path.Join"] = func(f *Frame, c *ssa.CallCommon) ([]string, bool) { return nil, false }
+	libExtWrites["path/filepath.Join"] = func(f *Frame, c *ssa.CallCommon) ([]string, bool) { return nil, false }
+}
+
+// os.Exit, log.Fatal*: the activation ends here (the path is cut)
+func init() {
+	noret := func(f *Frame, c *ssa.CallCommon, args []Val, pos token.Pos) ([]Val, bool) {
+		f.vc.assumeG(f.guard, "false")
+		f.guard = "false" // nothing after this point is reached in this block
+		f.vc.noReturnSeen = true
+		return f.freshResults(c, "noreturn"), true
+	}
+	for _, n := range []string{"os.Exit", "log.Fatal", "log.Fatalf", "log.Fatalln"} {
+		libExt[n] = noret
+		libExtWrites[n] = func(f *Frame, c *ssa.CallCommon) ([]string, bool) { return nil, false }
+	}
+}
